@@ -27,9 +27,9 @@ m = {
     "setup_cmd": "./setup.sh",
     "hooks": {
         "guard": "verif",
-        "enable": "go build -tags verif (the harness is always built with the tag; no hook file is currently needed: every check goes through the public API)",
+        "enable": "go build -tags verif (the harness is always built with the tag; one hook file, /repo/verif_hooks.go: VerifRawReads drives the scanner's unexported readByteRaw for the C12 refill correspondence)",
         "baseline_off_cmd": "cd /repo && go test -json -vet=off -count=1 -timeout 25m ./...",
-        "source_commits": [],
+        "source_commits": ["486b693"],
         "add_only": True,
     },
     "engines": [
